@@ -41,6 +41,17 @@ def oracle(ctx, cases):
             continue
         if any((not isinstance(m, str)) or m == "" for m in msgs):
             ctx.violation("an error rendered to an empty message", schema=repr(c.schema), value=repr(c.value))
+        # format_result: [] without errors, otherwise a header line plus one "- " line per error
+        try:
+            from d42.validation import format_result
+            from d42.validation._validation_result import ValidationResult
+            lines = format_result(ValidationResult(list(c.real)))
+            if (not c.real and lines != []) or (c.real and (len(lines) != len(c.real) + 1
+                                                            or not all(l.startswith("- ") for l in lines[1:]))):
+                ctx.violation("format_result does not carry one line per error", schema=repr(c.schema), value=repr(c.value),
+                              lines=lines[:6], errors=len(c.real))
+        except Exception as e:  # noqa: BLE001
+            ctx.violation("format_result raised " + type(e).__name__, schema=repr(c.schema), value=repr(c.value))
         try:
             r = validate_or_fail(c.schema, c.value)
             if r is not True or c.real:
